@@ -86,7 +86,7 @@ const wellFormed = "well-formed schemas (DESIGN 3.0.5): A1 built by the public c
 func init() {
 	register(&PropSpec{
 		ID: "C01",
-		Explanation: "Decided R-CODEC - the transport's CBOR modes are as wide as the schemas; R-DISCPRESENT / R-STOREALL - the typed discriminator is stored on every accepting Unserialize path, every way round the struct mapper stores the supplied value. (structural parts of the round trip): R-DELEG - for every type with typed entry points each pair (XType, X) is a delegation on the same receiver, or both " +
+		Explanation: "R-SUPPLIEDNONNIL - Unserialize of a list / map schema never hands out a nil container for a supplied value (nil means 'not supplied' in a struct field); R-CODEC also requires duplicate map keys to be refused by the transport. Decided R-CODEC - the transport's CBOR modes are as wide as the schemas; R-DISCPRESENT / R-STOREALL - the typed discriminator is stored on every accepting Unserialize path, every way round the struct mapper stores the supplied value. (structural parts of the round trip): R-DELEG - for every type with typed entry points each pair (XType, X) is a delegation on the same receiver, or both " +
 			"members consult every constraint field on all accepting paths; R-BOUNDFORM - the typed and untyped paths test the same quantity against the same bound in the " +
 			"same inclusive form; R-DYNTYPE - the non-error result of every Serialize / SerializeType is, by interprocedural dynamic-type provenance, a wire type " +
 			"(int64, float64, string, bool, []any, map[any]any, map[string]any; results produced by reflection are listed, not decided); R-ASSERT - the unchecked " +
@@ -117,7 +117,7 @@ func init() {
 	})
 	register(&PropSpec{
 		ID: "C03",
-		Explanation: "Decided: R-UNSETNIL - presence of struct-mapped properties: nil pointer / slice / map and the zero value of a disabled property are unset, unexported fields are refused; R-REBUILT - constructor-only fields are never used without a test for the unfilled case. R-OBJ - the presence-rule evaluator is reached on every accepting path of ObjectSchema Unserialize / Validate / Serialize (map-based and struct-mapped " +
+		Explanation: "Decided: R-SUPPLIEDNONNIL - the producer side of R-UNSETNIL (see C01). Decided: R-UNSETNIL - presence of struct-mapped properties: nil pointer / slice / map and the zero value of a disabled property are unset, unexported fields are refused; R-REBUILT - constructor-only fields are never used without a test for the unfilled case. R-OBJ - the presence-rule evaluator is reached on every accepting path of ObjectSchema Unserialize / Validate / Serialize (map-based and struct-mapped " +
 			"branches); its set/unset dispatch, and the rejects for required, required_if, required_if_not and conflicts have the declared polarity; undeclared and non-string " +
 			"keys are rejected wherever supplied keys are walked; a value derived from GetDefaults() is stored only under a failed lookup of the same key (a supplied value is " +
 			"never overridden); a disabled property is never unserialized and the object code cannot bypass PropertySchema.Unserialize; the inline shorthand is guarded by " +
@@ -137,7 +137,7 @@ func init() {
 	})
 	register(&PropSpec{
 		ID: "C02",
-		Explanation: "Decided: R-CONVKIND - conversions of values in Validate / Serialize only between agreeing kinds, unsigned values above MaxInt64 excluded; R-FMTPREC - no float becomes a string value through a fixed-precision verb. R-MUSTUSE - every declared constraint (json min, max, pattern, values) is read on every accepting path of Unserialize, Validate, Serialize and the typed " +
+		Explanation: "Decided: R-MAPORDER (converted-key clause) - no insertion under a converted key without a duplicate test, so size bounds checked on the source hold for the result. Decided: R-CONVKIND - conversions of values in Validate / Serialize only between agreeing kinds, unsigned values above MaxInt64 excluded; R-FMTPREC - no float becomes a string value through a fixed-precision verb. R-MUSTUSE - every declared constraint (json min, max, pattern, values) is read on every accepting path of Unserialize, Validate, Serialize and the typed " +
 			"variants of every schema type (interprocedural must-analysis over callees on the same receiver); R-BOUNDFORM - each comparison with a bound is the inclusive form " +
 			"(reject iff q < min / q > max), its violating branch returns an error, the measured quantity is the value (numbers) or its length (sized kinds) and all " +
 			"comparisons of one type agree on it; float tests exclude NaN; R-NARROW - lossy conversions to int64 in the input mappers are range- or round-trip-guarded; " +
@@ -160,7 +160,7 @@ func init() {
 	})
 	register(&PropSpec{
 		ID: "C04",
-		Explanation: "Decided: R-UNSETNIL (CanInterface clause) and R-REFLECT (e, f) - field access through the field cache does not walk through nil embedded pointers, values of unexported fields are not read, Convert to run-time types needs CanConvert. no reachable unguarded panic site of three classes in the functions reachable from Unserialize/Validate/Serialize/ValidateCompatibility " +
+		Explanation: "Decided: R-REFLECT (g) - Elem() only of a pointer known not to be nil (through parameters and callers); (h) - Set on a struct field only under CanSet() or a recover scope; R-TERM - the sub-object-defaults descent is bounded by a visited path, the inline-shorthand chain by a guard method (exception E-CHAINGUARD). Decided: R-UNSETNIL (CanInterface clause) and R-REFLECT (e, f) - field access through the field cache does not walk through nil embedded pointers, values of unexported fields are not read, Convert to run-time types needs CanConvert. no reachable unguarded panic site of three classes in the functions reachable from Unserialize/Validate/Serialize/ValidateCompatibility " +
 			"(and typed variants) of all Serializable implementers, outside recover scopes - R-ASSERT: every single-value type assertion is justified by dynamic-type " +
 			"provenance, a validator summary, a TypeID gate, the meta-root argument, or a named structural exception class; R-NILGUARD: every dereference of a field or " +
 			"parameter that the repository itself compares with nil is dominated by a non-nil fact on the same access path (dominator facts + must-dataflow for lazy-init); " +
@@ -189,7 +189,7 @@ func init() {
 	})
 	register(&PropSpec{
 		ID: "C05",
-		Explanation: "Decided: R-DECODERX - every Decode on the connection's decoder is exclusive; R-CODEC - CBOR modes as wide as the schemas; R-PAIR - a result that has arrived is never overwritten. R-LOCKSET - for every struct with a mutex (ATP client, ATP server session, callable step) the guarded fields are inferred (accessed under " +
+		Explanation: "Decided: R-DECODERX same-turn clause - a request whose reply is matched by position is written under the mutex held at the read. Decided: R-DECODERX - every Decode on the connection's decoder is exclusive; R-CODEC - CBOR modes as wide as the schemas; R-PAIR - a result that has arrived is never overwritten. R-LOCKSET - for every struct with a mutex (ATP client, ATP server session, callable step) the guarded fields are inferred (accessed under " +
 			"the mutex and mutable after construction; shared cbor encoders, the client's pending table, signal table and running flag are required to be guarded) and every " +
 			"access outside construction holds the mutex on all paths (must-lockset dataflow, helpers inherit the locks of all call sites, a goroutine started inside a " +
 			"critical section and joined before the unlock counts as inside). This is the structural part of 'never corrupted by interleaved writes / delivered to a different " +
@@ -210,7 +210,7 @@ func init() {
 	})
 	register(&PropSpec{
 		ID: "C06",
-		Explanation: "Decided R-SIGORDER, R-DONEGATE, R-SIGCHAN - the signal forwarder starts after the work start is written, runs are registered only on an open client, emitted signals are handed over with a way out; every send / close pair on a caller's signal channel is separated by goroutine confinement, the state mutex or the hand-over marker; every close goes with the removal of the table entry; every end of a run closes its channel. (structural necessary conditions for the absence of lost hand-overs and lost wake-ups in the client): R-ATOMIC - the running flag is cleared only " +
+		Explanation: "Decided R-STARTGATE - a run's registration and the writing of its work start lie in one section read-locked by an RWMutex that Close write-holds for the client-done message; R-READFIRST - the read loop is started before the work start is written; R-RELOCK - no call made inside a critical section takes the same mutex again; R-DONEGATE also over every Add on the WaitGroup Close waits for, and no insertion replaces a pending entry; R-WG accepts a count reserved by a callee and requires its release. Decided R-SIGORDER, R-DONEGATE, R-SIGCHAN - the signal forwarder starts after the work start is written, runs are registered only on an open client, emitted signals are handed over with a way out; every send / close pair on a caller's signal channel is separated by goroutine confinement, the state mutex or the hand-over marker; every close goes with the removal of the table entry; every end of a run closes its channel. (structural necessary conditions for the absence of lost hand-overs and lost wake-ups in the client): R-ATOMIC - the running flag is cleared only " +
 			"in a critical section that also scans the pending table, and set in the section that tested it and starts the read loop; presence-check-then-insert on guarded " +
 			"tables happens in one critical section; R-MUSTPASS - every exit of the read loop has cleared the running flag since the last read; R-PAIR - the result store is " +
 			"followed by Signal in the same critical section and Wait is guarded by a test of the condition; R-WG - Add dominates each go whose goroutine calls Done, Done is " +
@@ -236,7 +236,7 @@ func init() {
 	})
 	register(&PropSpec{
 		ID: "C07",
-		Explanation: "Decided: R-PLUGINPANIC - no explicit panic in the plugin entry point. R-CHAN - no goroutine can send on the error channel after its close (close must be joined with all sending goroutines), the report loop only " +
+		Explanation: "Decided: R-CHAN no-report-after-Done - nothing that can send on the error channel runs after a goroutine's Done (defer order included); R-SIGNONFATAL - no step-fatal report on behalf of a signal. Decided: R-PLUGINPANIC - no explicit panic in the plugin entry point. R-CHAN - no goroutine can send on the error channel after its close (close must be joined with all sending goroutines), the report loop only " +
 			"stops when the channel is closed or hands over to a deferred drain that keeps receiving until then, no report is sent non-blockingly, and the client's signal channels are closed/sent under one discipline; R-RECOVER - every " +
 			"goroutine that runs step code does so below a recover scope; R-EXACTLYONE - every path of the step runner, including the panic path through the recover handler, " +
 			"emits exactly one terminal message; R-WG for the server goroutines; R-MAPNIL - unknown step / signal IDs cannot be dereferenced (server side of C11). " +
@@ -257,7 +257,7 @@ func init() {
 	})
 	register(&PropSpec{
 		ID: "C08",
-		Explanation: "Decided: R-STICKY - every failed read from the stream (and every failure of the handshake after the hello message) is remembered in the client's error field, which is never cleared, and a run is registered / a reply is read directly only where that field was found nil under the right mutex: later Execute calls fail instead of reading from the middle of a damaged stream; R-SIGCHAN - a close of a caller's signal channel cannot hit a send in flight (goroutine confinement, the state mutex, or the hand-over marker), goes with the removal of the table entry, and follows every end of a run (result stored, or pending entry removed without one). R-WORKDONE - success results only from work-done messages with an output ID and output data; R-CLIENTPANIC - no explicit panic reachable from the client's methods beyond two accepted invariants. R-DELIVER - every decode/unmarshal error in the client reaches the affected waiter(s) (result store + wake-up) or the caller's return value, " +
+		Explanation: "Decided: R-DELIVER per-run deliveries - a result or step-fatal error that reaches no waiting call breaks the stream; R-SIGCHAN refusal clause - a run refused before registration has its signal channel closed; R-WORKDONE - output data is a map; R-RELOCK as in C06. Decided: R-STICKY - every failed read from the stream (and every failure of the handshake after the hello message) is remembered in the client's error field, which is never cleared, and a run is registered / a reply is read directly only where that field was found nil under the right mutex: later Execute calls fail instead of reading from the middle of a damaged stream; R-SIGCHAN - a close of a caller's signal channel cannot hit a send in flight (goroutine confinement, the state mutex, or the hand-over marker), goes with the removal of the table entry, and follows every end of a run (result stored, or pending entry removed without one). R-WORKDONE - success results only from work-done messages with an output ID and output data; R-CLIENTPANIC - no explicit panic reachable from the client's methods beyond two accepted invariants. R-DELIVER - every decode/unmarshal error in the client reaches the affected waiter(s) (result store + wake-up) or the caller's return value, " +
 			"every decoded runtime message is handed to a handler, and a decoded result is delivered where the pending table is known to hold its run or else fails all waiters; R-MUSTPASS - every exit of the read loop has failed all waiters or found none, and cleared the running " +
 			"flag in that critical section, so later Execute calls start a new reader (which fails again on a dead stream); R-WG(c) - Close cancels before it waits. " +
 			"R-STRICTDEC - every CBOR decoding call in the client's methods uses the client's strict DecMode (unknown fields are errors), never the package-level cbor.Unmarshal / NewDecoder; R-DECODEEXIT - as in C07. NOT decided: which corruptions the CBOR decoder reports as errors; timing.",
@@ -321,7 +321,7 @@ func init() {
 	})
 	register(&PropSpec{
 		ID: "C10",
-		Explanation: "Decided: R-EXPLICIT without the well-formedness assumptions - every explicit panic reachable from UnserializeSchema / UnserializeScope / ReadSchema or from the " +
+		Explanation: "Decided: R-EXPLICIT checked-at-link discharge - a schema-state panic whose condition linking evaluates first (root object, defaults) cannot be the first thing a received description meets. Decided: R-EXPLICIT without the well-formedness assumptions - every explicit panic reachable from UnserializeSchema / UnserializeScope / ReadSchema or from the " +
 			"data API is classified; a guard that depends only on schema state which a received description can produce is a violation (12 such sites, all on first use of an accepted description, are genuine, demonstrated " +
 			"defects recorded as known findings; the loaders themselves recover linking panics, each keyed separately so a new panic path is still reported); R-FORWARD - the loaders link every scope they return; " +
 			"R-ASSERT - the loaders' own type assertions are justified by the meta-root argument. Also decided: R-DIVZERO, R-MUSTCALL (no Must* constructor on run-time patterns), R-TERM (recursion through received references: 3 demonstrated stack overflows are known findings). NOT decided: semantic usability of an accepted description; panics from " +
@@ -355,7 +355,7 @@ func init() {
 	})
 	register(&PropSpec{
 		ID: "C14",
-		Explanation: "Decided: R-FORWARD - ApplyNamespace of every container forwards to every child (json-tagged Serializable field, or map/slice of such; inside a loop for " +
+		Explanation: "Decided: R-TERM (data mode, as under C04) - recursion through references is driven by the input or bounded. Decided: R-FORWARD - ApplyNamespace of every container forwards to every child (json-tagged Serializable field, or map/slice of such; inside a loop for " +
 			"collections) with the namespace string and the object table unchanged; the scope hands down its own table exactly for the self namespace and the external " +
 			"table otherwise; the reference links only when the namespace matches, to objects[its own ID]; ValidateReferences visits every child, returns its verdict, and " +
 			"succeeds for a reference iff it is linked; the loaders link all scopes. R-NSDEREF - code that runs while a namespace is being applied uses a child Object through a method that needs a linked reference (the RefSchema methods that panic on a nil cache) only where the child is known not to be an unlinked reference. NOT decided: the metamorphic 'inline the reference' equivalence over inputs; " +
@@ -370,7 +370,7 @@ func init() {
 	})
 	register(&PropSpec{
 		ID: "C15",
-		Explanation: "Decided for the schema-mode code of every ValidateCompatibility: R-KINDGATE - every `return nil` is dominated by a gate that separates the receiver's kind " +
+		Explanation: "R-MUSTUSE cross-kind clause - a bounded kind accepts a producer of another kind only after a look at its own bounds; R-DISABLED (schema mode) - a disabled property does not accept a producer that requires it. Decided for the schema-mode code of every ValidateCompatibility: R-KINDGATE - every `return nil` is dominated by a gate that separates the receiver's kind " +
 			"from all others (TypeID comparison, assertion to a concrete schema type, kind whitelist, conversion helper, or a reflective field probe whose embedders all report " +
 			"one TypeID) or lies in data mode; R-OVERLAP - the range comparisons are in normal form (reject iff other.min > self.max or other.max < self.min) and, by " +
 			"enumeration of all acyclic paths from the point where both schemas' bounds are available, every accepting path has decided both bound pairs (nil bound or " +
@@ -419,7 +419,7 @@ func init() {
 	})
 	register(&PropSpec{
 		ID: "C17",
-		Explanation: "Decided: R-ERRORIGIN - interprocedural error-origin summaries show that every error value that can leave Unserialize / Validate (and typed variants) of any " +
+		Explanation: "Decided: R-ELEMPATH - an error a container raises about one of its own elements (undeclared key, discriminator) stores a path segment for it. Decided: R-ERRORIGIN - interprocedural error-origin summaries show that every error value that can leave Unserialize / Validate (and typed variants) of any " +
 			"schema type originates as a *ConstraintError (origins in schema-mode compatibility code, reached only when the argument is itself a schema, are listed, not " +
 			"claimed); R-PATHSEG - wherever the failure of a child operation decides a rejecting return, the returned error is the child's error itself or that error " +
 			"passed through ConstraintErrorAddPathSegment; a container returning an element's error inside its loop without a segment, or any function replacing the child's " +
@@ -450,7 +450,7 @@ func init() {
 	register(&PropSpec{
 		ID:       "C19",
 		NeedsGen: true,
-		Explanation: "Decided for module `codegen`: R-INDEX - every constant index into os.Args beyond the schema file is dominated by a length test (no panic without the ignore " +
+		Explanation: "R-FLOW declared-name clause - a reference to an object of the schema uses the name the object is declared under; R-YAMLNIL - no pointer read from a decoded map is dereferenced without a nil test. Decided for module `codegen`: R-INDEX - every constant index into os.Args beyond the schema file is dominated by a length test (no panic without the ignore " +
 			"argument); R-EXPLICIT - the only explicit panic is the environment abort check(err); R-MAPORDER - what is written to the output inside loops over the YAML-decoded maps " +
 			"is ordered by a total-order sort of the keys first (byte-identical output on re-runs); R-FLOW - the ignore argument is compared with the object's map key itself, " +
 			"parseType is exactly integer->int64 / float->float64 / identity, and a field's type is the referenced ID for refs and the type ID otherwise. " +
@@ -479,7 +479,7 @@ func init() {
 	})
 	register(&PropSpec{
 		ID: "C12",
-		Explanation: "Decided: R-EFFECT - every write instruction (store, map update, delete, append into a non-fresh slice, mutating library call) in the functions reachable from " +
+		Explanation: "Decided: R-FIELDUNIQ - no two properties are mapped to one struct field. Decided: R-EFFECT - every write instruction (store, map update, delete, append into a non-fresh slice, mutating library call) in the functions reachable from " +
 			"the pure API is classified by an interprocedural origin analysis; only writes to memory allocated during the call, and idempotent lazy cache fills (written only " +
 			"while nil, in a function whose sole input is the receiver), are accepted; R-MAPORDER - every loop over a map has early exits of one verdict class and sorts " +
 			"order-sensitive accumulations with a total order unless they only feed an error message. R-MAPORDER also covers MapRange loops and loop-carried reads (a loop that fills a map reads it only at its own key). NOT decided: equality of repeated results as values.",
